@@ -227,7 +227,13 @@ func (sms *sqlMetadataStore) AppendObject(ctx context.Context, tx *sql.Tx, bucke
 		if !*updated {
 			return nil, metadatastore.ErrCASFailure
 		}
-		if err = sms.savePartRows(ctx, tx, *updatedEntity.Id, obj.Parts[len(existingParts):], len(existingParts)); err != nil {
+		// Continue after the last stored sequence number: parts of a multipart
+		// upload are numbered from 1, so the part count is not the next free slot.
+		nextSequenceNumber := len(existingParts)
+		if len(existingParts) > 0 {
+			nextSequenceNumber = existingParts[len(existingParts)-1].SequenceNumber + 1
+		}
+		if err = sms.savePartRows(ctx, tx, *updatedEntity.Id, obj.Parts[len(existingParts):], nextSequenceNumber); err != nil {
 			return nil, err
 		}
 		return &metadatastore.PartMutationResult{}, nil
